@@ -372,7 +372,55 @@ def r17_6(ctx: Ctx):
         ctx.ok(rid, 'Evolvent', 'no lazily cached derived attribute exists', ev.module.relpath)
 
 
+def r17_7(ctx: Ctx):
+    """Configuration routines are idempotent.  A routine that can be called any number of times after construction
+    (SetBounds ...) and defines an attribute the queries read from that attribute's own previous value
+    (self.B += self.B, self.B = 2 * self.B) makes every later query depend on how often it was called."""
+    rid = 'R17.7'
+    ctx.rule(rid, 'configuration routines other than the constructor define the attributes that queries read from '
+                  'their arguments and from other attributes - never from the attribute\'s own previous value '
+                  '(no accumulation across calls)')
+    ev = ctx.ix.cls('Evolvent')
+    roles = C.roles_of(ctx)
+    scr = scratch_attrs(ctx)
+    from . import caches as _caches
+    lazy = set(_caches.lazy_caches(ctx, ev))
+    qs = [ev.methods[n] for n in ('GetImage', 'GetInverseImage', 'GetPreimages') if n in ev.methods]
+    qreach = ctx.pta.reachable(qs)
+    ex = ctx.explorer(unroll=2, inline=lambda f, st: f.name != '__init__' and f.cls is ev and
+                      f.name.startswith('_') and not f.name.endswith('__'))
+    n = 0
+    for name, m in sorted(ev.methods.items()):
+        if m.kind != 'function' or name == '__init__' or not m.param_names or roles.fq(m) in qreach:
+            continue
+        if name.startswith('_') and roles.callers_of(m):
+            continue          # a private helper: analysed inside the routines that call it
+        selfk = key_of(var(m.param_names[0]))
+        try:
+            paths = C.normal_paths(ex.explore(m))
+        except AnalysisError:
+            continue
+        for p in paths:
+            for e in p.stores():
+                if e.d['tkind'] != 'attr' or key_of(e.d['base']) != selfk or not isinstance(e.d['field'], str):
+                    continue
+                fld = e.d['field']
+                if fld in scr or fld in lazy:
+                    continue
+                n += 1
+                own_entry = ('attr', selfk, fld, 0)
+                if C.mentions(e.d['value'], own_entry):
+                    ctx.fail(rid, e.func.short, e.loc(),
+                             f'{m.short} defines {fld} from its own previous value ({C.fmt(e.d["value"])[:60]}): the '
+                             f'attribute accumulates over calls, so queries answered after two calls differ from '
+                             f'queries answered after one - the result depends on the history of the object',
+                             key=f'{rid}::{m.short}::accumulates::{fld}')
+    ctx.floor(rid, 'attribute definitions in configuration routines', n, 2)
+
+
 def check(ctx: Ctx):
+    if C.want(ctx, 'R17.7'):
+        r17_7(ctx)
     if C.want(ctx, 'R17.6'):
         r17_6(ctx)
     if any(C.want(ctx, r) for r in ('R17.1', 'R17.2', 'R17.4', 'R17.5')):
